@@ -712,12 +712,19 @@ class BaseConverter:
     def structure_attrs_fromtuple(self, obj: tuple[Any, ...], cl: type[T]) -> T:
         """Load an attrs class from a sequence (tuple)."""
         conv_obj = []  # A list of converter parameters.
+        conv_kw_obj = {}  # Keyword-only converter parameters.
         for a, value in zip(fields(cl), obj):
+            if not a.init:
+                # Not an `__init__` parameter, so it cannot be passed in.
+                continue
             # We detect the type by the metadata.
             converted = self._structure_attribute(a, value)
-            conv_obj.append(converted)
+            if a.kw_only:
+                conv_kw_obj[getattr(a, "alias", a.name)] = converted
+            else:
+                conv_obj.append(converted)
 
-        return cl(*conv_obj)
+        return cl(*conv_obj, **conv_kw_obj)
 
     def _structure_attribute(self, a: Attribute | Field, value: Any) -> Any:
         """Handle an individual attrs attribute."""
@@ -747,6 +754,9 @@ class BaseConverter:
 
         conv_obj = {}  # Start with a fresh dict, to ignore extra keys.
         for a in fields(cl):
+            if not a.init:
+                # Not an `__init__` parameter, so it cannot be passed in.
+                continue
             try:
                 val = obj[a.name]
             except KeyError:
